@@ -22,6 +22,8 @@ def main(path):
     if not ok:
         print("harness / model build failed:\n" + log[-2000:])
         return 1
+    if d.get("property") == "C20":
+        return replay_python(line)
     impl, ihung, icr = harness.run_isolated(harness.IMPL_BIN, [line], 120)
     model, mhung, mcr = harness.run_isolated(harness.MODEL_BIN, [line], 360)
     cid = harness.case_id(line)
@@ -44,6 +46,40 @@ def main(path):
             break
     else:
         print("=== outputs differ in length: impl %d lines, model %d lines" % (len(a), len(b)))
+    return 1
+
+
+def replay_python(line):
+    """C20: the Python binding (pyharness/run.py on the extension built from the working tree) against the model's SciPy
+    layout and against the Rust API, compared key by key as the check does"""
+    from . import p_c20
+    ok, log = p_c20.build_extension()
+    if not ok:
+        print("building the Python extension failed:\n" + log[-2000:])
+        return 1
+    cid = harness.case_id(line)
+    py, e0 = p_c20.run_python([line])
+    model, mh, mc = harness.run_isolated(harness.MODEL_BIN, [line], 360)
+    impl = {}
+    if line.startswith("solve"):
+        impl, ih, ic = harness.run_isolated(harness.IMPL_BIN, [line], 120)
+    a = py.get(cid, ["<missing>"])
+    print("--- python binding" + ("  (runner: %s)" % "; ".join(e0) if e0 else ""))
+    for l in a:
+        print("   ", l[:400])
+    print("--- model")
+    for l in model.get(cid, []):
+        print("   ", l[:400])
+    d1 = p_c20.compare(a, model.get(cid, []))
+    d2 = p_c20.compare([l for l in a if p_c20.key_of(l).split()[0] in ("status", "t", "y", "tev", "yev", "sol", "span")],
+                       impl.get(cid, [])) if line.startswith("solve") else None
+    if d1:
+        print("=== python vs model: %r vs %r" % (d1[0][:300], d1[1][:300]))
+    if d2:
+        print("=== python vs Rust API: %r vs %r" % (d2[0][:300], d2[1][:300]))
+    if not d1 and not d2:
+        print("=== the binding agrees with the model's SciPy layout and with the Rust API on this case")
+        return 0
     return 1
 
 
